@@ -251,6 +251,9 @@ func (c *FCtx) loadGlobal(st *State, v *types.Var) Value {
 		st.assume(f)
 	}
 	c.globalFacts(st, v, val)
+	if t, ok := val.(*Term); ok && t.Sort == SInt && c.W.globalInitNonNil(v) {
+		st.assume(Neq(t, IntC(0)))
+	}
 	return val
 }
 
